@@ -311,6 +311,19 @@ def explore(ctx):
                 for s in steps:
                     out += [s.state_repr[0], s.state_repr[1], s.state_repr[2], 1 if s.accepted else 0]
                 cases_mono.append((f'({n}, {coq.lst([str(x) for x in sorted(req)]) if req else "(@nil nat)"})', out, ('clang', n, 'mono', list(req))))
+    # ... with the C++ standard detected by the pass itself, on inputs whose instance count depends on the standard
+    # (the newest standard sees fewer instances than the one that gets selected)
+    for n in ((4,) if ctx.quick() else (3, 4, 5, 6)):
+        for r in range(0, n + 1):
+            for req in itertools.combinations(range(n), r):
+                scen = {'caps': {'c++2b': max(n - 2, 0), 'c++98': 1}}
+                steps, final, reason, log, _ = c15.run_bin(ctx, n, 'mono', req, scen, std=None)
+                ctx.evaluations += 1
+                ctx.count(f'clangbinarysearch:mono:detected-standard:n={n}')
+                why = c15.oracle_bin(ctx, n, 'mono', req, steps, final, log, scen, None)
+                if why:
+                    ctx.violation('binary-clang-mono', f'clangbinarysearch N={n} (standard detected by the pass; c++2b sees {max(n - 2, 0)} instances) required {req}: {why}',
+                                  {'kind': 'clang', 'n': n, 'mode': 'mono', 'param': list(req), 'scen': scen, 'std': None})
     # #if blocks: IfPass with the unifdef stand-in (nesting, #else, #elif: resolving one conditional changes the number of others)
     for it in range(60 if ctx.quick() else 600):
         n = rnd.randint(1, 6 if ctx.quick() else 9)
@@ -357,8 +370,11 @@ def replay(ctx, payload):
     r = payload['replay']
     if r['kind'] == 'clang':
         from props import c15
-        steps, final, reason, log, _ = c15.run_bin(ctx, r['n'], 'mono', r['param'])
-        why = c15.oracle_bin(ctx, r['n'], 'mono', r['param'], steps, final, log, {}, None)
+        if 'scen' in r:
+            steps, final, reason, log, _ = c15.run_bin(ctx, r['n'], 'mono', r['param'], r['scen'], std=r.get('std'))
+        else:
+            steps, final, reason, log, _ = c15.run_bin(ctx, r['n'], 'mono', r['param'])
+        why = c15.oracle_bin(ctx, r['n'], 'mono', r['param'], steps, final, log, r.get('scen', {}), None)
         if why:
             ctx.violation('binary-clang-mono', why, r)
         return
